@@ -262,9 +262,17 @@ static void run_case(const std::string &line) {
       if (t[0] == "T") verif_now_ms += strtoull(t[1].c_str(), 0, 10);
       else if (t[0] == "A") { n->accept.clear(); if (t.size() > 1) for (char c : t[1]) n->accept.push_back(c == '1'); }
       else if (t[0] == "S" && t.size() >= 8) {
-        tN2kMsg m; m.Clear();
-        m.Priority = (unsigned char)tounum(t[2]); m.PGN = tounum(t[3]); m.Source = (unsigned char)tounum(t[4]); m.Destination = (unsigned char)tounum(t[5]);
-        m.SetIsTPMessage(t[6] == "1");
+        // one long-lived message object that the application re-initialises with Init() for every send (the usual pattern of a periodic
+        // sender): Init() starts an empty message whatever the object was used for before, including the ISO-TP mark (seed C01-16)
+        static tN2kMsg m;
+        m.Init((unsigned char)tounum(t[2]), tounum(t[3]), (unsigned char)tounum(t[4]), (unsigned char)tounum(t[5]));
+        if (t[6] == "1") {
+          // the ISO-TP mark is set last, or - every other time - first, before SetPGN(): it belongs to the object, not to the payload, and
+          // survives the filling of the message (seed C10-17)
+          static unsigned tpk = 0;
+          if ((tpk++ & 1) != 0) { m.SetIsTPMessage(); m.SetPGN(tounum(t[3])); } else m.SetIsTPMessage();
+        }
+        m.Priority = (unsigned char)tounum(t[2]);      // the raw field value of the case (Init keeps the low 3 bits only)
         memset(m.Data, 0xEE, sizeof(m.Data));           // stale payload bytes beyond DataLen must never reach the bus
         std::vector<uint8_t> d = unhex(t[7]); m.DataLen = (int)d.size(); if (!d.empty()) memcpy(m.Data, d.data(), d.size());
         int sd = atoi(t[1].c_str());
